@@ -700,6 +700,9 @@ def unit_cases2(ctx, replay):
         outs = [run_promotion_script(c, c["mode"], 1.0), run_promotion_script(c, flip(c["mode"]), -1.0)]
         calls, observed = outs[0]
         ctx.count(("prom", c), nontrivial=any(o[0] == "sched" and o[1] is not None for o in observed))
+        if any(o[0] == "sched_raised" for o in observed):
+            ctx.violation("property", "PromotionRungSystem.on_task_schedule raised an exception", case=c,
+                          signature=dict(scheduler="PromotionRungSystem", defect="on_task_schedule_raises"))
         ctx.h("unit_kind", "promotion_rung_system")
         for o in observed:
             ctx.h("promotion_calls", o[0] if o[0] != "sched" else ("sched_promote" if o[1] is not None else "sched_none"))
@@ -752,8 +755,12 @@ def run_promotion_script(c, mode, sgn):
     for _ in range(c["steps"]):
         x = rng.random()
         if x < 0.35 and (next_id < c["max_trials"] or paused):
-            ret = rs.on_task_schedule(str(next_id))
             calls.append(("sched",))
+            try:
+                ret = rs.on_task_schedule(str(next_id))
+            except Exception:  # an assertion inside on_task_schedule / _mark_as_promoted escaped
+                outs.append(("sched_raised",))
+                break
             if ret.get("trial_id") is not None:
                 t = int(ret["trial_id"])
                 outs.append(("sched", (t, int(ret["resume_from"]), int(ret["milestone"]))))
@@ -823,6 +830,8 @@ def pev_term(ev):
 
 
 def pout_term(o):
+    if o[0] == "sched_raised":
+        return "POSched SAssert"
     if o[0] == "sched":
         return "POSched SNone" if o[1] is None else "POSched (SPromote %s %s %s)" % (zlit(o[1][0]), zlit(o[1][1]), zlit(o[1][2]))
     if o[0] == "add":
